@@ -139,7 +139,7 @@ func (s *Sim) adminTimeout() time.Duration {
 func (s *Sim) runningHosts() []*Host {
 	var r []*Host
 	for _, h := range s.hosts {
-		if h.up && !h.stopped && h.started {
+		if h.up && !h.stopped && h.started && s.shardLoaded(h) {
 			r = append(r, h)
 		}
 	}
@@ -421,4 +421,13 @@ func (s *Sim) reconcileMembership(v *memView) {
 			s.startLate(h)
 		}
 	}
+}
+
+// shardLoaded: the NodeHost still has the shard registered (lock free).
+func (s *Sim) shardLoaded(h *Host) bool {
+	if h.nh == nil {
+		return false
+	}
+	_, ok := h.nh.VerifGetReplica(shardID)
+	return ok
 }
